@@ -36,6 +36,8 @@ ASSUME = ["pdpy11's 'signed' inline number convention (-2^n < v < 2^n, stored mo
           "the 1801VM2 / LSI-11 / maintenance opcodes in Spec/PDP11.v are as in the repository (no independent source)"]
 TRUSTED = ["tools/insn_cases.py: printer from abstract operands to source text", "tools/gens/gen_insns.py: source-shape pins of insns.py"]
 
+REQ = "Spec.PDP11 Run.C01Run"
+PRE = "Open Scope string_scope.\nOpen Scope Z_scope."
 ADDRS = [0o1000, 0, 0o100, 0o177770, 0o77776]
 
 
@@ -102,7 +104,7 @@ def build_cases(intro, rng, tier, big=False):
 def judge_cases(rep, cases, what):
     terms = [c.term() for c in cases]
     shards = C.shard(terms, 500)
-    codes = C.run_case_files(ID, "Run.C01Run", "Open Scope Z_scope.", shards, judge_expr="map judge cases")
+    codes = C.run_case_files(ID, REQ, PRE, shards, judge_expr="map judge cases")
     flat = [x for sh in codes for x in sh]
     assert len(flat) == len(cases), (len(flat), len(cases))
     nviol = 0
@@ -128,7 +130,7 @@ def explore(rep, br, tier, seed):
     intro = IC.introspect()
     # (1) introspection, exhaustive
     terms = [IC.intro_term(e) for e in intro]
-    codes = C.run_case_files(ID, "Run.C01Run", "Open Scope Z_scope.", [terms],
+    codes = C.run_case_files(ID, REQ, PRE, [terms],
                              judge_expr=f"judge_count {len(intro)} :: judge_regnames :: map judge_intro cases")[0]
     rep.add_eval(len(intro) + 2)
     rep.exhaustive_parts.append(f"introspection of all {len(intro)} pdpy11.insns.instructions objects against Model.Insns.init_entry")
@@ -181,6 +183,6 @@ def replay(data):
     print("source:", inp["files"][0][1].strip().replace("\n", " / "))
     print("now:", {k: r.get(k) for k in ("outcome", "base", "code", "crash")})
     term = "(%s, [%s], %s, %s)" % (C.coq_str(inp["mnemonic"]), "; ".join(inp["operands"]), C.zlit(inp["address"]), IC.coq_obs(r))
-    code = C.run_case_files(ID, "Run.C01Run", "Open Scope Z_scope.", [[term]], judge_expr="map judge cases")[0][0]
+    code = C.run_case_files(ID, REQ, PRE, [[term]], judge_expr="map judge cases")[0][0]
     print("judge code:", code, "(bit 0: model differs, bit 1: contradicts Spec)")
     return (code & 2) == 0
